@@ -160,6 +160,48 @@ theorem ended_token_grants_nothing (st : State) (rs : List Req) (r : Req) (k : N
   rw [hs'] at hs''; cases hs''
   exact Or.inl hd'
 
+/-- **A rendezvous blob is stored only by the session whose nonce the OwnerSign carries, while it
+is live.** After any history, an OwnerSign that carries the nonce issued in session `j` stores
+nothing when it arrives under no token, under another session's token, or after session `j` has
+ended. (`Req.nonceOf` is the model's view of the signed to0d: which session's NonceTO0Sign it holds.) -/
+theorem owner_sign_only_in_its_own_live_session (v : List Nat) (reuse : Bool) (m : Nat) (history : List Req)
+    (r : Req) (j : Nat) (hn : r.nonceOf = some j) :
+    let st := stateAfter (init v reuse m) history
+    (r.tok ≠ .sess j ∨ ∀ s, st.sessions[j]? = some s → s.live = false) →
+    ∀ e ∈ (step st r).2.2, ∀ k d, e ≠ .setBlob k d := by
+  intro st hcase e he k d hed
+  obtain ⟨k', s, htok, hs, hl, _, _, hneeds⟩ := effects_session_bound_in_order v reuse m history r e he
+  subst hed
+  obtain ⟨_, _, _, hk⟩ : k = k' ∧ r.typ = 22 ∧ List.Sublist [20] s.hist ∧ r.nonceOf = some k' := hneeds
+  rw [hn] at hk
+  cases hk
+  rcases hcase with h | h
+  · exact h htok
+  · have := h s hs
+    rw [hl] at this; cases this
+
+/-- **A replayed OwnerSign stores nothing.** Once session `j` has answered an OwnerSign with
+AcceptOwner (23), the same signed bytes — any request carrying session `j`'s nonce — sent again,
+after any further traffic, under any token whatsoever (none, the finished one, a new session's),
+store no rendezvous blob. -/
+theorem replayed_owner_sign_stores_nothing (v : List Nat) (reuse : Bool) (m : Nat) (before later : List Req)
+    (q r : Req) (j : Nat) (s : Sess)
+    (hq : q.tok = .sess j) (hqs : (stateAfter (init v reuse m) before).sessions[j]? = some s)
+    (hq22 : q.typ = 22) (hacc : (step (stateAfter (init v reuse m) before) q).2.1 = 23)
+    (hn : r.nonceOf = some j) :
+    ∀ e ∈ (step (stateAfter (step (stateAfter (init v reuse m) before) q).1 later) r).2.2, ∀ k d, e ≠ .setBlob k d := by
+  have hst : isStart q.typ = false := by rw [hq22]; decide
+  have hknown : protoOf q.typ ≠ none ∨ q.typ = 255 := by rw [hq22]; exact Or.inl (by decide)
+  obtain ⟨s1, hs1, hd1⟩ := token_dead_after_end _ q j s hq hqs hst hknown (Or.inr (Or.inl (by rw [hacc]; decide)))
+  obtain ⟨s2, hs2, hd2⟩ := dead_stays_dead_history _ later j s1 hs1 hd1
+  have heq : stateAfter (step (stateAfter (init v reuse m) before) q).1 later
+      = stateAfter (init v reuse m) (before ++ q :: later) := by
+    simp [stateAfter, List.foldl_append]
+  rw [heq] at hs2 ⊢
+  refine owner_sign_only_in_its_own_live_session v reuse m (before ++ q :: later) r j hn (Or.inr ?_)
+  intro s' hs'
+  rw [hs2] at hs'; cases hs'; exact hd2
+
 /-- **Sessions do not interfere.** A request changes no session other than the one its token
 names (a protocol start changes none and adds one). -/
 theorem other_sessions_untouched (st : State) (r : Req) (j : Nat) (hj : j < st.sessions.length)
@@ -280,6 +322,15 @@ example : (run (init [1] false 2) [
     { tok := .none, typ := 20 }, { tok := .sess 1, typ := 22, dev := 1, nonceOf := some 1, signer := some 1 },
     { tok := .sess 0, typ := 12 }, { tok := .sess 1, typ := 22, dev := 1, nonceOf := some 1, signer := some 1 }]).2 =
     [(11, []), (13, [.addVoucher 0]), (21, []), (23, [.setBlob 1 1]), (255, []), (255, [])] := by decide
+
+/-- the replay theorems' premises are met by a run, and the replays (no token, the finished token,
+a new TO0 session's token) store nothing -/
+example : (run (init [1] false 2) [
+    { tok := .none, typ := 20 }, { tok := .sess 0, typ := 22, dev := 1, nonceOf := some 0, signer := some 1 },
+    { tok := .none, typ := 22, dev := 1, nonceOf := some 0, signer := some 1 },
+    { tok := .sess 0, typ := 22, dev := 1, nonceOf := some 0, signer := some 1 },
+    { tok := .none, typ := 20 }, { tok := .sess 1, typ := 22, dev := 1, nonceOf := some 0, signer := some 1 }]).2 =
+    [(21, []), (23, [.setBlob 0 1]), (255, []), (255, []), (21, []), (255, [])] := by decide
 
 /-- the code as it stands: Done straight after 66 replaces the voucher (recorded finding) -/
 example : (run (init [1] false 2) [
